@@ -85,7 +85,11 @@ class ProductDomain(Domain):
         if b_variables_in_data:  # domain_b will be a fixed point
             point_data = self._create_point_data(self.domain_b.space, data)
             domain_b = Point(space=self.domain_b.space, point=point_data)
-        return ProductDomain(domain_a=domain_a, domain_b=domain_b)
+        new_domain = ProductDomain(domain_a=domain_a, domain_b=domain_b)
+        if a_variables_in_data or b_variables_in_data:
+            # a slice of the product does not have the volume of the product
+            return new_domain
+        return self._evaluate_user_volume(new_domain, **data)
 
     def _create_point_data(self, space, data):
         # the coordinates of the fixed point, in the order of the variables of the space
